@@ -244,6 +244,36 @@ func TestReplay(t *testing.T) {
 		}
 	}
 	t.Logf("dot layouts: %d", n)
+	// qualified identifiers as elements of multi-line lists, with comments around them
+	n = 0
+	for _, open := range []string{"f(", "[]interface{}{", "T{"} {
+		closer := map[string]string{"f(": ")", "[]interface{}{": "}", "T{": "}"}[open]
+		for _, before := range []string{"", "\t// b\n", "/*b*/ "} {
+			for _, trailing := range []string{"", " // t", " /*t*/"} {
+				for _, after := range []string{"", "\t// a\n", "\n\t// a\n", "\t/* a */\n"} { // indented like the elements: a comment in the closer's column is the KF-1 class
+					for _, last := range []bool{true, false} {
+						elems := "a,\n"
+						q := before + "fmt.Sprint," + trailing + "\n" + after
+						if last {
+							elems += q
+						} else {
+							elems = q + elems
+						}
+						src := "package root\n\nimport \"fmt\"\n\nvar x = " + open + "\n" + elems + closer + "\n"
+						cs, fix, err := oracle.Canon([]byte(src))
+						if err != nil || !fix {
+							continue
+						}
+						n++
+						h.Eval("ListLayouts")
+						checkPlain(t, "ListLayouts", string(cs), true)
+						h.NonTrivial("ListLayouts", string(cs))
+					}
+				}
+			}
+		}
+	}
+	t.Logf("list layouts: %d", n)
 	// cgo: the "C" import alone, grouped with other imports, with and without a preamble
 	for i, src := range []string{
 		"package root\n\n/*\n#include <stdio.h>\n*/\nimport \"C\"\n\nimport \"fmt\"\n\nfunc f() {\n\tfmt.Println(C.x)\n}\n",
@@ -292,6 +322,7 @@ func checkPlain(t h.TB, sub, src string, strict bool) {
 }
 
 func init() {
+	h.RegisterReplay("ListLayouts", func(t h.TB, s string) { checkPlain(t, "ListLayouts", s, false) })
 	h.RegisterReplay("Cgo", func(t h.TB, s string) { checkPlain(t, "Cgo", s, false) })
 	h.RegisterReplay("DotLayouts", func(t h.TB, s string) { checkPlain(t, "DotLayouts", s, false) })
 	h.RegisterReplay("Witness", func(t h.TB, s string) { checkPlain(t, "Witness", s, true) })
